@@ -9,6 +9,7 @@ harness injects between iterations and through how far it advances the clock.
 from __future__ import annotations
 
 import asyncio
+import collections.abc
 import gc
 import heapq
 from asyncio import events
@@ -212,15 +213,50 @@ def teardown(loop: VLoop) -> None:
     loop._scheduled.clear()
 
 
-class OrderedDoneSet(set):
-    """A ``set`` of tasks that iterates in a harness-chosen, address-independent order."""
+class OrderedDoneSet(collections.abc.MutableSet):
+    """A set of tasks that iterates in a harness-chosen, address-independent order
+    (insertion order), and stays consistent when the caller mutates it."""
 
-    def __init__(self, items):
-        super().__init__(items)
-        self._order = list(items)
+    def __init__(self, items=()):
+        self._d = dict.fromkeys(items)
+
+    def __contains__(self, x):
+        return x in self._d
 
     def __iter__(self):
-        return iter(self._order)
+        return iter(list(self._d))
+
+    def __len__(self):
+        return len(self._d)
+
+    def add(self, x):
+        self._d[x] = None
+
+    def discard(self, x):
+        self._d.pop(x, None)
+
+    def copy(self):
+        return OrderedDoneSet(self._d)
+
+    def update(self, *others):
+        for o in others:
+            for x in o:
+                self.add(x)
+
+    def union(self, *others):
+        r = self.copy()
+        r.update(*others)
+        return r
+
+    def difference(self, *others):
+        r = self.copy()
+        for o in others:
+            for x in o:
+                r.discard(x)
+        return r
+
+    def __repr__(self):
+        return f"OrderedDoneSet({list(self._d)!r})"
 
 
 _orig_wait = asyncio.wait
